@@ -26,6 +26,9 @@ RULE_WALK = (
     "query), small via routes; then random graphs (2-12 vertices, 1-40 edges) with connected edge walks of 1-30 edges: forward "
     "(60%), reverse (20%), forward+reverse+reorient_reverse_route (20%); random units, headings, delay tables and units, feature "
     "order and extra features, weights / vehicle rates (raw, factor, offset, zero) / network rates (edge, edge-pair) / sum|mul; "
+    "turn-delay tables give every class (no_turn too) its own non-zero delay, half of the heading tables are drawn from a pool "
+    "around one direction (consecutive edges exactly collinear, +-1 degree, or on a class boundary); vehicle rates include Combined "
+    "chains (offset before factor, factor before offset, nested, empty); "
     "every EdgeTraversal{access_cost, traversal_cost, total_cost(), result_state} and route.traversal_summary compared as exact "
     "float bits. non-trivial = every route of the case exists, some route has >= 2 edges, and a model unit differs from the "
     "feature unit (distance, time or delay) or a non-zero turn delay is charged; distinct by case")
@@ -58,7 +61,14 @@ RULE_APP = (
     "[algorithm] ksp_single_via with k in 2..4 (responses whose `route` is an ARRAY), one in four an edge-oriented query "
     "(origin_edge / destination_edge, ids or through the edge map-matching plugin): there EVERY route of the response is re-walked "
     "(M) and judged (S) on ITS OWN path -- records, total_cost, the zero-cost origin / destination edges with the unchanged state "
-    "of that route, traversal_summary = that route's last state, cost = its rated summary. Non-trivial = judged route of "
+    "of that route, traversal_summary = that route's last state, cost = its rated summary. Turn-delay tables give every class "
+    "(no_turn too, 4 times in 5) its own non-zero delay; headings come from the geometry (collinear edges share a heading) or from a "
+    "pool around one direction (differences of exactly 0, +-1, 19/20, 44/45, 134/135, 159/160, 179/180). Vehicle rates include "
+    "Combined chains written as [\"combined\", rate, ..] in the configuration or the query (offset before factor, factor before "
+    "offset, nested). One random case in four is a SEQUENCE of 2-4 queries answered one after another by ONE application "
+    "instance, the first overriding weights / vehicle_rates / cost_aggregation: every answer (records, totals, summary, cost and "
+    "the route.cost_model echo) is judged under the rates in force for ITS OWN query, computed from the configuration and that "
+    "query. Non-trivial = judged route of "
     ">= 2 edges with a unit conversion or a charged turn delay, or a response with >= 2 routes, or an edge-oriented query")
 
 
@@ -119,7 +129,7 @@ def turn_case(h1, h2):
             "features": [["distance", feat("distance", "Meters")], ["time", feat("time", "Seconds")]], "user": [],
             "tm": {"kind": "distance", "du": "Meters"},
             "am": {"kind": "turn", "headings": [[h1, None], [h2, None]],
-                   "table": [[t, fbits(0.0 if i == 0 else 2.0 * (i + 0.5)), 0.0 if i == 0 else 2.0 * (i + 0.5)] for i, t in enumerate(TURNS)],
+                   "table": [[t, fbits(2.0 * (i + 0.5)), 2.0 * (i + 0.5)] for i, t in enumerate(TURNS)],
                    "unit": "Seconds", "fname": "time"},
             "cost": {"weights": [["distance", fbits(1.0), 1.0], ["time", fbits(1.0), 1.0]],
                      "vrates": [["distance", "raw"], ["time", "raw"]], "nrates": [], "mul": False},
@@ -263,7 +273,7 @@ def run(chk):
     if only in (None, "app_sums"):
         # end to end: the same judge and model on what CompassApp::run returns (harness/src/bin/e2e.rs)
         binp_app = vf.build_harness("e2e")
-        r = vf.run_stream(binp_app, "app_sums", 150 if quick else 1500, chk.seed, os.path.join(chk.outdir, "app_sums"), replay=chk.replay)
+        r = vf.run_stream(binp_app, "app_sums", 220 if quick else 1500, chk.seed, os.path.join(chk.outdir, "app_sums"), replay=chk.replay)
         chk.add_stream(r, RULE_APP)
         vf.compare(chk, r, classify=classify, binpath=binp_app)
 
